@@ -29,7 +29,10 @@ def main():
                 clause = g.group(1)
         by = qc.get('by', m['property'])
         txt = '%s %s' % (by if by == m['property'] else '%s (%s)' % (m['property'], by), clause)
-        if m.get('out_of_domain'):
+        if m.get('open_miss'):
+            txt = '**missed, left open** -- ' + m['open_miss'].replace('|', '/')
+            missed += 1
+        elif m.get('out_of_domain'):
             txt = '**not decided** -- ' + m['history'].replace('not decided: ', '').replace('|', '/')
             missed += 1
         elif 'history' in m:
